@@ -38,6 +38,19 @@ CLAIMED = {
         "dependencies, <=3 kinds, <=4 rows per kind on grid 0..8, <=4 chunks per dependency.",
    technique="TLA+ model checking of an implementation-shaped spec + replay of all TLC behaviours into Plugin.iter + TLC trace validation at P-level",
    design="4/C08"),
+ "C04": dict(
+   text="spec/Storage.tla models the saver protocol at file-system-operation granularity (removal of old data step by step, temp "
+        "directory, chunk temp file / write / rename, metadata truncate / write, final rename), both processors' failure routing, "
+        "worker-thread writes, process death and retries; TLC checks VisibleImpliesCorrect / ReportedFailure / RetryHeals over "
+        "all fault points and interleavings (and that the protocol as found violates them). Binding: every file-system "
+        "operation of a real Context.make is a fault point (OSError, death before, death after; plugin exceptions; second "
+        "faults during the retry incl. every step of removing old data); a fresh Context observes, a retry follows. TLC "
+        "validates each recorded saver operation sequence against Storage.tla (StorageTrace.tla) and each observation against "
+        "the P-level (StorageObs.tla).",
+   note="Trusted: TLC, the interposer (module attributes os/shutil/open of strax.storage.files and strax.io replaced in a forked "
+        "child), os._exit as process death. A write() is atomic in the model. Forked (multiprocess) savers are not covered.",
+   technique="TLA+ model checking of the storage protocol + exhaustive fault injection on the real code with TLC trace validation (I-level) and TLC-evaluated P-level on observations",
+   design="4/C04"),
 }
 NOT_BUILT = "decision procedure (TLA+ module + binding) not built yet in this session; see DESIGN.md section 4 for the plan"
 
